@@ -390,6 +390,8 @@ func init() {
 		e.DeclConst("ERR_ADDR", "Int")
 		e.Axiom("(= ERR_ADDR 900)")
 		ok := app("addrOK", c.t(0), c.t(1))
+		// a successfully decoded address is never empty (the bech32 codec rejects empty strings / empty payloads)
+		c.st.Assume(implies(ok, and(not(eq(app("addrBytes", c.t(0), c.t(1)), "bempty")), not(eq(c.t(1), "bempty")))))
 		return c.ret(TV{T: app("addrBytes", c.t(0), c.t(1)), Ty: tBytes}, TV{T: ite(ok, "0", "ERR_ADDR"), Ty: tError})
 	})
 	reg("cosmossdk.io/core/address.Codec.BytesToString", "Codec.BytesToString is a pure partial function inverse to StringToBytes", func(c *CallCtx) []Outcome {
@@ -417,8 +419,15 @@ func init() {
 		return c.ret(TV{T: app("accStr", c.t(0)), Ty: tString})
 	})
 	reg("(github.com/cosmos/cosmos-sdk/types.ValAddress).String", "ValAddress.String is a pure function of the bytes", func(c *CallCtx) []Outcome {
-		c.x.enc.DeclFun("valStr", []string{"Bytes"}, "Bytes")
-		return c.ret(TV{T: app("valStr", c.t(0)), Ty: tString})
+		e := c.x.enc
+		e.DeclFun("valStr", []string{"Bytes"}, "Bytes")
+		e.DeclFun("addrOK", []string{"Int", "Bytes"}, "Bool")
+		e.DeclFun("addrBytes", []string{"Int", "Bytes"}, "Bytes")
+		s := app("valStr", c.t(0))
+		// A-VALSTR: ValAddress.String is the bech32 encoding the validator address codec (id 2) decodes back
+		e.Axiom(implies(not(eq(c.t(0), "bempty")), and(app("addrOK", "2", s), eq(app("addrBytes", "2", s), c.t(0)))))
+		e.usedAssum["A-VALSTR: validatorAddressCodec.StringToBytes(ValAddress(b).String()) == b for non-empty b"] = true
+		return c.ret(TV{T: s, Ty: tString})
 	})
 
 	// ----- coins -----------------------------------------------------------------------------------------
@@ -469,10 +478,9 @@ func init() {
 		}
 		// general list with at most one coin (obligation): empty or its only coin is zero
 		cs := c.tv(0)
-		c.x.addObl("call.pre", "coins_at_most_one@"+c.x.pos(c.instr.Pos()), "modelled coin lists have at most one coin", c.st, app("<=", seqLen(cs.T), "1"), nil)
-		c.st.Assume(app("<=", seqLen(cs.T), "1"))
 		coin0 := TV{T: simpSelect(app("gseq.arr", cs.T), "0"), Ty: elemType(cs.Ty)}
-		return c.ret(TV{T: or(eq(seqLen(cs.T), "0"), eq(c.x.coinAmt(coin0), "0")), Ty: tBool})
+		gen := c.uf("coinsIsZero", "Bool", cs)
+		return c.ret(TV{T: ite(app("<=", seqLen(cs.T), "1"), or(eq(seqLen(cs.T), "0"), eq(c.x.coinAmt(coin0), "0")), gen), Ty: tBool})
 	})
 	reg("(cosmossdk.io/math.Int).Uint64", "Int.Uint64 returns the value; it panics unless 0 <= i < 2^64", func(c *CallCtx) []Outcome {
 		c.x.panicUnless(c, and(app(">=", c.t(0), "0"), app("<", c.t(0), two64)), "Int.Uint64")
@@ -654,13 +662,13 @@ func (x *Exec) bankTransfer(c *CallCtx, from, to string, coins TV) []Outcome {
 	h := handleOf(c.args[1])
 	coin, single := x.singleCoin[coins.T]
 	nonEmpty := "true"
+	multi := "false"
 	if !single && coins.Ty != nil && strings.HasPrefix(x.enc.Sort(coins.Ty), "(GSeq") {
-		// general list: at most one coin (obligation); an empty list moves nothing
-		x.addObl("call.pre", "coins_at_most_one@"+x.pos(c.instr.Pos()), "modelled coin lists have at most one coin", c.st, app("<=", seqLen(coins.T), "1"), nil)
-		c.st.Assume(app("<=", seqLen(coins.T), "1"))
+		// general list: precise for at most one coin (an empty list moves nothing), unknown effect otherwise
 		coin = TV{T: simpSelect(app("gseq.arr", coins.T), "0"), Ty: elemType(coins.Ty)}
 		nonEmpty = eq(seqLen(coins.T), "1")
 		single = true
+		multi = app(">", seqLen(coins.T), "1")
 	}
 	return c.forkFail(func(st *State) []Value {
 		bal := x.bankBal(st, h)
@@ -675,6 +683,9 @@ func (x *Exec) bankTransfer(c *CallCtx, from, to string, coins TV) []Outcome {
 		st.Assume(implies(app(">", a, "0"), app(">=", app("select", bal, kf), a)))
 		b1 := app("store", bal, kf, app("-", app("select", bal, kf), a))
 		b2 := app("store", b1, kt, app("+", app("select", b1, kt), a))
+		if multi != "false" {
+			b2 = ite(multi, x.freshGhost("bank.bal", "@multi", bankBalSort), b2)
+		}
 		x.ghostSet(st, h, "bank.bal", b2)
 		return []Value{nilErr()}
 	}, func(st *State, err TV) []Value {
@@ -691,12 +702,12 @@ func (x *Exec) bankMintBurn(c *CallCtx, mod string, coins TV, op string) []Outco
 	h := handleOf(c.args[1])
 	coin, single := x.singleCoin[coins.T]
 	nonEmpty := "true"
+	multi := "false"
 	if !single && coins.Ty != nil && strings.HasPrefix(x.enc.Sort(coins.Ty), "(GSeq") {
-		x.addObl("call.pre", "coins_at_most_one@"+x.pos(c.instr.Pos()), "modelled coin lists have at most one coin", c.st, app("<=", seqLen(coins.T), "1"), nil)
-		c.st.Assume(app("<=", seqLen(coins.T), "1"))
 		coin = TV{T: simpSelect(app("gseq.arr", coins.T), "0"), Ty: elemType(coins.Ty)}
 		nonEmpty = eq(seqLen(coins.T), "1")
 		single = true
+		multi = app(">", seqLen(coins.T), "1")
 	}
 	return c.forkFail(func(st *State) []Value {
 		bal := x.bankBal(st, h)
@@ -712,8 +723,14 @@ func (x *Exec) bankMintBurn(c *CallCtx, mod string, coins TV, op string) []Outco
 		if op == "-" {
 			st.Assume(app(">=", app("select", bal, k), a))
 		}
-		x.ghostSet(st, h, "bank.bal", app("store", bal, k, app(op, app("select", bal, k), a)))
-		x.ghostSet(st, h, "bank.supply", app("store", sup, d, app(op, app("select", sup, d), a)))
+		nb := app("store", bal, k, app(op, app("select", bal, k), a))
+		ns := app("store", sup, d, app(op, app("select", sup, d), a))
+		if multi != "false" {
+			nb = ite(multi, x.freshGhost("bank.bal", "@multi", bankBalSort), nb)
+			ns = ite(multi, x.freshGhost("bank.supply", "@multi", bankSupplySort), ns)
+		}
+		x.ghostSet(st, h, "bank.bal", nb)
+		x.ghostSet(st, h, "bank.supply", ns)
 		return []Value{nilErr()}
 	}, func(st *State, err TV) []Value {
 		if c.fundedOnly && single && op == "-" {
